@@ -25,6 +25,8 @@
 #include <soundswallower/vad.h>
 #include <soundswallower/s3file.h>
 #include <soundswallower/ckd_alloc.h>
+#include <soundswallower/mllr.h>
+#include <soundswallower/feat.h>
 
 enum { ST_IDLE, ST_STARTED, ST_ENDED };
 typedef struct actx {
@@ -222,10 +224,28 @@ static void op_poll(actx *c)
     vh_count("polling_utterances", 1); vh_count("partial_hypothesis_word_to_nothing_flips", flips);
 }
 
+/* an identity MLLR transform (A = I, b = 0, h = 1) of the model's shape: applying it must change nothing */
+static void op_mllr(actx *c)
+{
+    char *path = vh_path("%s/mllr%ld_%d", vh_tmpdir(), vh_case, c->nops); vh_sb b; int f, j, k, nf = feat_dimension1(decoder_feat(c->d)); mllr_t *m, *rv;
+    drop_iters(c);
+    if (c->st == ST_STARTED) return;
+    vh_sb_init(&b); vh_sb_printf(&b, "1\n%d\n", nf);
+    for (f = 0; f < nf; ++f) { int vl = (int)feat_dimension2(decoder_feat(c->d), f); vh_sb_printf(&b, "%d\n", vl); for (j = 0; j < vl; ++j) { for (k = 0; k < vl; ++k) vh_sb_printf(&b, "%s ", j == k ? "1.0" : "0.0"); vh_sb_printf(&b, "\n"); } for (j = 0; j < vl; ++j) vh_sb_printf(&b, "0.0 "); vh_sb_printf(&b, "\n"); for (j = 0; j < vl; ++j) vh_sb_printf(&b, "1.0 "); vh_sb_printf(&b, "\n"); }
+    vh_write_file(path, b.s, b.n); vh_sb_free(&b);
+    vh_ctx("mllr_read"); m = mllr_read(path); unlink(path);
+    if (!m) { expect(c, 0, "identity_mllr_not_read", "mllr_read refuses a well-formed identity transform"); return; }
+    vh_ctx("decoder_apply_mllr"); rv = decoder_apply_mllr(c->d, m);
+    LOG(c, "apply_mllr(identity)%s ", rv ? "+" : "-");
+    expect(c, rv != NULL, "identity_mllr_refused", "decoder_apply_mllr returned NULL for an identity transform of the model's shape");
+    /* the header says the decoder consumes the pointer: the history keeps no reference */
+    vh_count("mllr_transforms_applied", 1);
+}
+
 /* degenerate arguments the documentation covers */
 static void op_degenerate(actx *c)
 {
-    int k = (int)vh_below(c->r, 6), rv; char *lk;
+    int k = (int)vh_below(c->r, 7), rv; char *lk;
     if (c->st == ST_STARTED && k < 5) return;
     drop_iters(c);
     switch (k) {
@@ -234,6 +254,7 @@ static void op_degenerate(actx *c)
     case 2: vh_ctx("decoder_add_word"); rv = decoder_add_word(c->d, vh_path("zzempty%ld", vh_case), "", 1); LOG(c, "add_word(pron '')=%d ", rv); expect(c, rv < 0, "empty_pronunciation_accepted", "decoder_add_word with an empty pronunciation returned %d", rv); break;
     case 3: vh_ctx("decoder_set_jsgf_string"); rv = decoder_set_jsgf_string(c->d, ""); LOG(c, "jsgf('')=%d ", rv); expect(c, rv < 0, "empty_jsgf_accepted", "decoder_set_jsgf_string(\"\") returned %d", rv); break;
     case 4: vh_ctx("decoder_reinit_feat"); rv = decoder_reinit_feat(c->d, NULL); LOG(c, "reinit_feat(NULL)=%d ", rv); expect(c, rv == 0, "reinit_feat_null_fails", "decoder_reinit_feat(d, NULL) returned %d", rv); break;
+    case 5: if (c->st != ST_STARTED) { mllr_t *rv2; vh_ctx("decoder_apply_mllr"); rv2 = decoder_apply_mllr(c->d, NULL); LOG(c, "apply_mllr(NULL)%s ", rv2 ? "+" : "-"); vh_count("mllr_null_calls", 1); } break;   /* documented: NULL re-applies the existing transform */
     default: vh_ctx("decoder_lookup_word"); lk = decoder_lookup_word(c->d, ""); LOG(c, "lookup('')%s ", lk ? "+" : "-"); expect(c, lk == NULL, "empty_word_found", "decoder_lookup_word(\"\") is not NULL"); ckd_free(lk); break;
     }
     vh_count("degenerate_argument_calls", 1);
@@ -326,7 +347,7 @@ static void run(long i, vh_rng *r)
             if (u < 0.55) op_process(&c); else if (u < 0.85) op_query(&c); else if (u < 0.93 || c.off >= c.au.n) op_end(&c); else op_standalone(&c);
         } else {
             if (!c.have_gram) { if (u < 0.7) op_grammar(&c); else if (u < 0.8) op_query(&c); else if (u < 0.9) op_words(&c); else op_standalone(&c); }
-            else if (u < 0.32) op_start(&c); else if (u < 0.35) op_poll(&c); else if (u < 0.5) op_grammar(&c); else if (u < 0.6) op_words(&c); else if (u < 0.9) op_query(&c);
+            else if (u < 0.30) op_start(&c); else if (u < 0.32) op_mllr(&c); else if (u < 0.35) op_poll(&c); else if (u < 0.5) op_grammar(&c); else if (u < 0.6) op_words(&c); else if (u < 0.9) op_query(&c);
             else if (u < 0.93) { int rv; drop_iters(&c); vh_ctx("decoder_reinit"); rv = decoder_reinit(c.d, NULL); LOG(&c, "reinit(NULL)=%d ", rv); expect(&c, rv == 0, "reinit_null_fails", "decoder_reinit(d, NULL) returned %d", rv); c.have_gram = 0; c.st = ST_IDLE; vh_count("reinits", 1); }
             else op_standalone(&c);
         }
